@@ -26,7 +26,7 @@ func init() {
 				Rule: "case = pair (lhs, rhs) of int sequences. Exhaustive: every pair over alphabet 3 x length <= 7 (10,758,400 pairs), alphabet 2 x length <= 9 (1,046,529 pairs) and alphabet 4 x length <= 5 (1,863,225 pairs) in quick; additionally alphabet 2 x length <= 11, alphabet 3 x length <= 8 (96.8 M pairs) and alphabet 5 x length <= 5 in thorough; every pair of windows (prefix/prefix, window/prefix, suffix/prefix) of one shared backing array of up to 9 binary elements (inputs that alias each other); random pairs of length up to 400 made of long common runs with point mutations, insertions, deletions and block moves over alphabets of 2..50 symbols. " +
 					"Per pair: interpreter (each edit's X and Y are the spans of lhs and rhs at the current offsets, by value and by address; lhs consumed and rhs produced exactly), emitted element count == LCS length from an independent O(mn) table, canonical form (no empty edit, adjacent edits differ in kind, no Drop next to Copy, only the four opcodes, empty iff equal), inputs unmodified; a sample of returned scripts is kept and verified again after later calls; 8 goroutines call EditScript concurrently on unshared inputs (plain and under -race). " +
 					"distinct = the pair itself (enumerated without repetition; random pairs by hash); non-trivial = the pair has more than one optimal alignment (counted by a separate DP)",
-				Required:     []string{"pairs", "ambiguous_pairs", "replace_edits", "equal_pairs", "random_pairs", "aliased_pairs", "concurrent_calls", "kept_results_rechecked"},
+				Required:     []string{"pairs", "ambiguous_pairs", "replace_edits", "equal_pairs", "random_pairs", "aliased_pairs", "concurrent_calls", "kept_results_rechecked", "interface_element_cases"},
 				Exhaustive:   true,
 				Assumptions:  []string{"the O(mn) LCS table is the reference for minimality"},
 				CoverPkgs:    []string{"github.com/creachadair/mds/slice"},
@@ -304,6 +304,49 @@ func c11concurrent(c *fw.Ctx, base int) {
 	}
 }
 
+// c11anyElems: EditScript instantiated with interface-typed elements, one of
+// which holds a value (a slice) that is comparable with values of other types
+// but cannot be hashed; the script must have the same shape as the script of
+// the int instantiation on the corresponding codes.
+func c11anyElems(c *fw.Ctx) {
+	vals := []any{"a", "b", 7, 2.5, []int{1}, struct{ X int }{3}}
+	r := c.Rng()
+	for k := 0; k < 300; k++ {
+		mk := func(allowSlice bool) ([]int, []any) {
+			n := r.IntN(7)
+			codes := make([]int, n)
+			out := make([]any, n)
+			for i := range codes {
+				codes[i] = r.IntN(len(vals))
+				if codes[i] == 4 && !allowSlice {
+					codes[i] = 0
+				}
+				out[i] = vals[codes[i]]
+			}
+			return codes, out
+		}
+		ca, a := mk(true)
+		cb, b := mk(false) // the unhashable value occurs in one input only, so it is never compared with itself
+		want := slice.EditScript(ca, cb)
+		var got []slice.Edit[any]
+		ok, pv, stack := fw.Try(func() { got = slice.EditScript(a, b) })
+		c.Add("interface_element_cases", 1)
+		data := map[string]any{"lhs_codes": ca, "rhs_codes": cb, "values": fmt.Sprint(vals)}
+		if !ok {
+			c.FailKind("panic", data, "EditScript on interface-typed elements (one holds a slice) panicked: %v\n%s", pv, stack)
+			return
+		}
+		same := len(got) == len(want)
+		for i := 0; same && i < len(got); i++ {
+			same = got[i].Op == want[i].Op && len(got[i].X) == len(want[i].X) && len(got[i].Y) == len(want[i].Y)
+		}
+		if !same {
+			c.Fail(data, "EditScript on interface-typed elements gives %v, the int instantiation on the same codes gives %v", got, want)
+			return
+		}
+	}
+}
+
 func runC11(c *fw.Ctx) {
 	defer c11recheckKept(c)
 	if c.Flavour == "race" {
@@ -311,6 +354,9 @@ func runC11(c *fw.Ctx) {
 		return
 	}
 	c11concurrent(c, 1<<22)
+	if c.Block == 0 && c.Begin(1<<23) {
+		c11anyElems(c)
+	}
 	idx := 0
 	type space struct{ a, maxLen int }
 	spaces := []space{{3, 7}, {2, 9}, {4, 5}}
